@@ -573,6 +573,157 @@ fn views_part(rep: &mut Report, thorough: bool) {
     rep.samples.push(json!(lines.last()));
 }
 
+
+/// Buffers the foreign side obtains from `diplomat_alloc` (the JS runtime and Dart's `_RustAlloc` do, also for empty
+/// lists): whatever the size — zero included — the address is non-null and aligned for the element type, a view of
+/// `len` elements over it is what `from_raw_parts` needs, reads back what was stored, and `diplomat_free` takes it back.
+fn alloc_views_probe(rep: &mut Report) {
+    use diplomat_runtime::{diplomat_alloc, diplomat_free, DiplomatSlice};
+    fn one<T: Copy + PartialEq + std::fmt::Debug + Default>(name: &str, len: usize, fill: T, rep: &mut Report) {
+        let (size, align) = (len * std::mem::size_of::<T>(), std::mem::align_of::<T>());
+        let case = format!("(c16 probe alloc-view {name} len={len})");
+        rep.oracle_runs += 1;
+        rep.count("probe:alloc-views");
+        unsafe {
+            let p = diplomat_alloc(size, align);
+            if p.is_null() || (p as usize) % align != 0 {
+                rep.oracle_fail(&case, "diplomat_alloc returns an address that is null or not aligned for the element type: no valid view exists over it", json!({"address": p as usize, "size": size, "align": align}));
+                return; // building the slice would be undefined behaviour
+            }
+            let t = p as *mut T;
+            for i in 0..len { t.add(i).write(fill); }
+            #[repr(C)]
+            struct Raw<T> { ptr: *const T, len: usize }
+            let view: DiplomatSlice<T> = std::mem::transmute_copy(&Raw { ptr: t as *const T, len });
+            let back: &[T] = &view;
+            if back.len() != len || back.iter().any(|x| *x != fill) || back.as_ptr() != t as *const T {
+                rep.oracle_fail(&case, "a view over a diplomat_alloc buffer does not read back what was stored", json!({"len": back.len()}));
+            }
+            diplomat_free(p, size, align);
+        }
+    }
+    for len in [0usize, 0, 1, 3, 17] {
+        one::<u8>("u8", len, 0xA5, rep);
+        one::<bool>("bool", len, true, rep);
+        one::<u16>("u16", len, 0xBEEF, rep);
+        one::<i16>("i16", len, -2, rep);
+        one::<u32>("u32", len, 0xDEADBEEF, rep);
+        one::<i32>("i32", len, -7, rep);
+        one::<f32>("f32", len, 1.5, rep);
+        one::<u64>("u64", len, u64::MAX - 1, rep);
+        one::<i64>("i64", len, i64::MIN, rep);
+        one::<f64>("f64", len, -0.25, rep);
+        one::<usize>("usize", len, usize::MAX, rep);
+        one::<u128>("u128", len, 1 << 100, rep);
+    }
+}
+
+/// The views the JS runtime hands to Rust (`DiplomatBuf.str8 / str16 / slice / strs`), executed in Node over a real
+/// `WebAssembly.Memory`: `(ptr, size)` must cover exactly the UTF-8 bytes / code units / elements of the JS value —
+/// for every string, also ones cut through a surrogate pair (which encode as U+FFFD) — and the Rust side must accept
+/// the bytes as a `str` (the real `diplomat_is_str`).
+fn js_runtime_views_probe(rep: &mut Report) {
+    let out = crate::tool::run_backend("#[diplomat::bridge]\nmod ffi { #[diplomat::opaque] pub struct O; impl O { pub fn f(&self, s: &DiplomatStr, t: &DiplomatStr16, l: &[u16]) {} } }", "js");
+    let Some(rt) = out.files.get("diplomat-runtime.mjs") else { rep.notes.push("js runtime views: no diplomat-runtime.mjs".into()); return };
+    let dir = util::workdir("c16-js");
+    let _ = std::fs::remove_dir_all(&dir);
+    std::fs::create_dir_all(&dir).unwrap();
+    std::fs::write(dir.join("diplomat-runtime.mjs"), rt).unwrap();
+    // strings as UTF-16 code unit lists, so that ill-formed ones survive the trip
+    let mut strs: Vec<Vec<u16>> = vec![];
+    let pieces: [&[u16]; 12] = [&[], &[0x61], &[0x7f], &[0x80], &[0x7ff], &[0x800], &[0xffff], &[0xd83d, 0xde00], &[0xd83d], &[0xde00], &[0xe9, 0x20ac], &[0x41, 0x42, 0x43]];
+    for a in pieces { for b in pieces { for c in [&[][..], &[0x78][..], &[0xd83d][..], &[0x20ac][..]] {
+        let mut v = a.to_vec(); v.extend_from_slice(b); v.extend_from_slice(c); strs.push(v);
+    } } }
+    strs.push("long enough to matter: ".encode_utf16().chain(std::iter::repeat(0xd83d).take(3)).chain("é€😀".encode_utf16()).collect());
+    let js_strs = strs.iter().map(|u| format!("[{}]", u.iter().map(|x| x.to_string()).collect::<Vec<_>>().join(","))).collect::<Vec<_>>().join(",");
+    let prog = format!(r#"import {{ DiplomatBuf }} from './diplomat-runtime.mjs';
+const memory = new WebAssembly.Memory({{ initial: 8 }});
+let top = 4096; const live = new Map();
+const wasm = {{ memory,
+  diplomat_alloc(size, align) {{ top = (top + align - 1) & ~(align - 1); const p = top; top += Math.max(size, 1) + 8; live.set(p, [size, align]); new Uint8Array(memory.buffer, p, size + 8).fill(0xCC); return p; }},
+  diplomat_free(p, size, align) {{ const l = live.get(p); if (!l || l[0] !== size || l[1] !== align) console.log('badfree ' + p + ' ' + size + ' ' + align); live.delete(p); }} }};
+const hex = (p, n) => Array.from(new Uint8Array(memory.buffer, p, n)).map(b => b.toString(16).padStart(2, '0')).join('');
+const origAssert = console.assert; console.assert = (c, ...m) => {{ if (!c) console.log('assert ' + m.join(' ')); }};
+const strs = [{js_strs}].map(u => String.fromCharCode(...u));
+strs.forEach((s, i) => {{
+  const b8 = DiplomatBuf.str8(wasm, s); console.log('str8 ' + i + ' ' + b8.size + ' ' + hex(b8.ptr, b8.size) + ' ' + hex(b8.ptr + b8.size, 2)); b8.free();
+  const b16 = DiplomatBuf.str16(wasm, s); console.log('str16 ' + i + ' ' + b16.size + ' ' + (b16.ptr % 2) + ' ' + hex(b16.ptr, b16.size * 2)); b16.free();
+}});
+const lists = {{ u8: [0, 255, 7], i8: [-1, 127], boolean: [true, false, true], u16: [65535, 1], i16: [-2, 3], u32: [4294967295, 5], i32: [-9, 9], usize: [1, 2, 3], f32: [1.5, -0.25], f64: [1e300, -2], u64: [18446744073709551615n, 1n], i64: [-5n, 5n] }};
+for (const [ty, l] of Object.entries(lists)) {{ for (const list of [l, []]) {{
+  const b = DiplomatBuf.slice(wasm, list, ty); const es = ['u8','i8','boolean'].includes(ty) ? 1 : ['u16','i16'].includes(ty) ? 2 : ['u64','i64','f64'].includes(ty) ? 8 : 4;
+  console.log('slice ' + ty + ' ' + b.size + ' ' + (b.ptr % es) + ' ' + hex(b.ptr, b.size * es)); b.free(); }} }}
+for (const enc of ['string8', 'string16']) {{ const ss = ['a', '', 'é€', String.fromCharCode(0xd83d), '😀z'];
+  const b = DiplomatBuf.strs(wasm, ss, enc); const w = new Uint32Array(memory.buffer, b.ptr, ss.length * 2);
+  console.log('strs ' + enc + ' ' + b.size + ' ' + ss.map((_, i) => w[2 * i + 1] + ':' + hex(w[2 * i], w[2 * i + 1] * (enc === 'string16' ? 2 : 1))).join(',')); b.free(); }}
+console.log('live ' + live.size);
+"#);
+    std::fs::write(dir.join("main.mjs"), prog).unwrap();
+    let (ok, outp, err) = util::run(std::process::Command::new("node").arg(dir.join("main.mjs")));
+    rep.oracle_runs += 1;
+    if !ok {
+        if err.contains("No such file") || err.contains("not found") { rep.notes.push("js runtime views: node not available".into()); return; }
+        rep.oracle_fail("(c16 probe js-runtime-views)", "the JS runtime's buffer helpers throw", json!({"stderr": err.lines().take(6).collect::<Vec<_>>()}));
+        return;
+    }
+    let hexs = |b: &[u8]| b.iter().map(|x| format!("{x:02x}")).collect::<String>();
+    let unhex = |s: &str| (0..s.len() / 2).map(|i| u8::from_str_radix(&s[2 * i..2 * i + 2], 16).unwrap_or(0)).collect::<Vec<u8>>();
+    let mut seen = 0;
+    for l in outp.lines() {
+        let f: Vec<&str> = l.split(' ').collect();
+        match f[0] {
+            "str8" => {
+                let i: usize = f[1].parse().unwrap();
+                let case = format!("(c16 probe js-str8 units={:?})", strs[i]);
+                let want = String::from_utf16_lossy(&strs[i]).into_bytes();
+                seen += 1;
+                rep.count("probe:js-runtime-views");
+                let got = unhex(f.get(3).unwrap_or(&""));
+                if f[2] != want.len().to_string() || got != want {
+                    rep.oracle_fail(&case, "the UTF-8 view the JS runtime hands to Rust does not cover exactly the string's bytes", json!({"size": f[2], "bytes": hexs(&got), "expected_size": want.len(), "expected_bytes": hexs(&want)}));
+                } else if !real_is_str(&got) {
+                    rep.oracle_fail(&case, "diplomat_is_str refuses the bytes the JS runtime wrote for a string", json!({"bytes": hexs(&got)}));
+                }
+                if f.get(4) != Some(&"cccc") {
+                    rep.oracle_fail(&case, "the JS runtime wrote beyond the buffer it allocated for a string", json!({"after": f.get(4)}));
+                }
+            }
+            "str16" => {
+                let i: usize = f[1].parse().unwrap();
+                seen += 1;
+                let want: Vec<u8> = strs[i].iter().flat_map(|u| u.to_le_bytes()).collect();
+                if f[2] != strs[i].len().to_string() || f[3] != "0" || unhex(f.get(4).unwrap_or(&"")) != want {
+                    rep.oracle_fail(&format!("(c16 probe js-str16 units={:?})", strs[i]), "the UTF-16 view the JS runtime hands to Rust is not the string's code units", json!({"line": l, "expected_bytes": hexs(&want)}));
+                }
+            }
+            "slice" => {
+                seen += 1;
+                let empty = f[2] == "0";
+                let want: &str = match (f[1], empty) { (_, true) => "", ("u8", _) => "00ff07", ("i8", _) => "ff7f", ("boolean", _) => "010001", ("u16", _) => "ffff0100", ("i16", _) => "feff0300", ("u32", _) => "ffffffff05000000", ("i32", _) => "f7ffffff09000000", ("usize", _) => "010000000200000003000000", ("f32", _) => "0000c03f000080be", ("f64", _) => "9c7500883ce4377e00000000000000c0", ("u64", _) => "ffffffffffffffff0100000000000000", ("i64", _) => "fbffffffffffffff0500000000000000", _ => "?" };
+                if f[3] != "0" || f.get(4).copied().unwrap_or("") != want {
+                    rep.oracle_fail(&format!("(c16 probe js-slice {} empty={empty})", f[1]), "the list view the JS runtime hands to Rust is not the elements in the element type's layout", json!({"line": l, "expected_bytes": want}));
+                }
+            }
+            "strs" => {
+                seen += 1;
+                let want = if f[1] == "string8" { "1:61,0:,5:c3a9e282ac,3:efbfbd,5:f09f98807a" } else { "1:6100,0:,2:e900ac20,1:3dd8,3:3dd800de7a00" };
+                if f[2] != "5" || f[3] != want {
+                    rep.oracle_fail(&format!("(c16 probe js-strs {})", f[1]), "the list-of-strings view the JS runtime hands to Rust is wrong", json!({"line": l, "expected": want}));
+                }
+            }
+            "live" => { seen += 1; if f[1] != "0" { rep.oracle_fail("(c16 probe js-runtime-views)", "buffers left allocated after free()", json!(l)); } }
+            "badfree" => rep.oracle_fail("(c16 probe js-runtime-views)", "a buffer is freed with another size or alignment than it was allocated with", json!(l)),
+            "assert" => {} // the runtime's own assertion; the comparison above decides
+            _ => {}
+        }
+    }
+    let expect = strs.len() * 2 + 24 + 2 + 1;
+    if seen != expect {
+        rep.oracle_fail("(c16 probe js-runtime-views)", "the Node run of the JS runtime helpers is incomplete", json!({"lines": seen, "expected": expect, "stderr": err.lines().take(4).collect::<Vec<_>>()}));
+    }
+}
+
 pub fn main(args: &[String]) {
     let a = util::parse_args(args);
     let mut rep = Report::new("C16");
@@ -601,5 +752,7 @@ pub fn main(args: &[String]) {
     }
     utf8_part(&mut rep, &mut rng, thorough);
     views_part(&mut rep, thorough);
+    alloc_views_probe(&mut rep);
+    js_runtime_views_probe(&mut rep);
     rep.print();
 }
